@@ -33,10 +33,10 @@ MeshSeq ==
      Strip(SubMesh("tet", CubeP, Five, 1..5)),
      Strip(SubMesh("hex", HexP, HexCells, {1, 2})),
      [kind |-> "wedge", p |-> WedgeP, t |-> WedgeT],
-     Scramble(Strip(SubMesh("tri", LatP, TriCells([sq \in 1..4 |-> 0]), {1, 2, 3, 4, 5, 6}))),
      Scramble(Strip(SubMesh("quad", LatP, QuadCells, {1, 2, 3}))) >>
    \o (IF Tier = "thorough"
-       THEN << Strip(SubMesh("tet", CubeP, Kuhn, 1..6)), Strip(SubMesh("hex", HexP, HexCells, {1, 2, 3})),
+       THEN << Scramble(Strip(SubMesh("tri", LatP, TriCells([sq \in 1..4 |-> 0]), {1, 2, 3, 4, 5, 6}))),
+               Strip(SubMesh("tet", CubeP, Kuhn, 1..6)), Strip(SubMesh("hex", HexP, HexCells, {1, 2, 3})),
                Strip(SubMesh("quad", LatP, [sq \in 1..4 |-> ShiftCell(QuadCells[sq], (3 * sq) % 4)], {1, 2, 3, 4})) >>
        ELSE <<>>)
 NM == Len(MeshSeq)
@@ -77,7 +77,8 @@ vars == <<tm, c, depth, deep, failed, last>>
 
 \* depth -1: the derived tables of the untagged mesh are computed once and live in the state (c)
 Only == IF "ONLY" \in DOMAIN IOEnv /\ IOEnv.ONLY # "" THEN {CHOOSE i \in 1..NM : ToString(i) = IOEnv.ONLY} ELSE 1..NM
-Init == \E i \in Only : \E dp \in BOOLEAN :
+\* compositions of two operations: from every mesh in the thorough tier, from the 2-D meshes in the quick tier
+Init == \E i \in Only : \E dp \in (IF Tier = "thorough" \/ Dim(MeshSeq[i].kind) = 2 THEN BOOLEAN ELSE {FALSE}) :
           /\ tm = MeshSeq[i] /\ c = ConnOfMesh(MeshSeq[i]) /\ depth = -1 /\ deep = dp /\ failed = {} /\ last = "init"
 Tag  == /\ depth = -1
         /\ \E SF \in TagPairs(tm, Len(c.facets), deep) : tm' = Tagged(tm, SF)
